@@ -151,6 +151,12 @@ func (r *Registry) AddImport(pkg *types.Package) *Package {
 
 	imprt := Package{pkg: pkg, Alias: r.aliases[path]}
 
+	// The generated methods name their receiver mock and the call record
+	// callInfo, a package with such a qualifier would be hidden by them.
+	if reservedQualifier(imprt.Qualifier()) {
+		imprt.Alias = imprt.uniqueName(0)
+	}
+
 	if conflict, ok := r.searchImport(imprt.Qualifier()); ok {
 		r.resolveImportConflict(&imprt, conflict, 0)
 	}
